@@ -405,8 +405,8 @@ def run(chk):
         "libstdc++ containers/strings/streams are race-free on distinct objects ([res.on.data.races]); operator new/delete are thread-safe",
         "hypothesis: the run-alone execution of a workload is memory-safe and UB-free (ASan/UBSan build); workloads that are not are excluded and counted (that is C01's property)",
         "TSan detects happens-before races among accesses it instruments (libtins and harness code; uninstrumented libcrypto/libpcap internals are not seen)",
-        "TSan judges only the schedules that were executed: a race needs both accesses to be executed without a happens-before edge in one of the runs (it does not need them to collide in time); state that is touched only on a path no workload executes, or only under a registration history / key pattern no scenario produces, is seen by the static-variable table alone",
-        "a cold-start race is visible only in the first overlapping calls of a process: the quick tier gives each (workload kind, k) one cold process per run; thread start-up skew (16 threads released by one barrier on a shared machine) may let one thread finish a lazy initialisation before the next one arrives, in which case TSan still reports it only if the later reads are not ordered after it (they are not: the barrier precedes both)",
+        "TSan judges only the schedules that were executed: a race needs both accesses to be executed without a happens-before edge in one of the runs (they need not collide in time, but must be close enough for the detector's bounded access history, see below); state that is touched only on a path no workload executes, or only under a registration history / key pattern no scenario produces, is seen by the static-variable table alone",
+        "a cold-start race is visible only in the first overlapping calls of a process: the quick tier gives each (workload kind, k), each cold group x k and each registry scenario x k three cold processes per run (500 cold processes with the 80 mixed cases); thread start-up skew (16 threads released by one barrier on a shared machine) may let one thread finish a lazy initialisation before the next one arrives, in which case TSan still reports it only if the later reads are not ordered after it (they are not: the barrier precedes both)",
         "TSan's shadow memory remembers the last four accesses to an 8-byte word: the one racing write of a lazy initialisation is forgotten after a few further accesses to the same word, so it is reported only if another thread's first call arrives within a few calls of it (observed with seeded/C18f on 4 slow-starting threads: no report) — hence the spinning barrier, the sensitive call first in every workload, and hundreds of cold processes per run instead of long warm runs",
         "wrong-value manifestations (digest mismatch without a race report) need the accesses to actually collide; they are opportunistic, the race report is the primary signal",
         "TSan suppressions: none are used; no report from libstdc++ / libcrypto internals occurs on the unchanged tree",
